@@ -3403,6 +3403,9 @@ namespace bloch::runtime {
 #endif
             }
         }
+        // Detach the scope before destroying it: releasing its variables can run user
+        // destructors, which push and pop scopes of their own on m_env.
+        auto closing = std::move(m_env.back());
         m_env.pop_back();
     }
 
